@@ -161,7 +161,9 @@ func runSolver(ctx context.Context, sp solverSpec, script string, dir string, id
 	if err := os.WriteFile(file, []byte(content), 0o644); err != nil {
 		return "error", err.Error(), 0
 	}
-	defer os.Remove(file)
+	if os.Getenv("RUXVC_KEEP") == "" {
+		defer os.Remove(file)
+	}
 	cctx, cancel := context.WithTimeout(ctx, time.Duration(timeoutS+2)*time.Second)
 	defer cancel()
 	cmd := exec.CommandContext(cctx, sp.bin, sp.args(file, timeoutS)...)
